@@ -202,7 +202,7 @@ func newC13Sys() *c13Sys {
 }
 
 // c13Kinds: request kinds chosen to collide on bytesPool, bufPool and the gzip pools.
-var c13Kinds = []string{"grpc-duplex", "http-duplex", "mount-json", "mount-escaped-json", "http-json", "http-json-gzip", "http-body", "http-upload", "grpc", "grpc-gzip", "web", "http-stream-gzip", "http-stream-2in1", "web-gzip", "grpc-gzip-corrupt", "grpc-gzip-oversize", "http-gzip-corrupt"}
+var c13Kinds = []string{"grpc-duplex", "http-duplex", "mount-json", "mount-escaped-json", "http-accept-1line", "http-accept-2lines", "http-json", "http-json-gzip", "http-body", "http-upload", "grpc", "grpc-gzip", "web", "http-stream-gzip", "http-stream-2in1", "web-gzip", "grpc-gzip-corrupt", "grpc-gzip-oversize", "http-gzip-corrupt"}
 
 func c13Payload(thread int, size int) []byte {
 	b := make([]byte, size)
@@ -262,6 +262,19 @@ func c13Request(s *c13Sys, thread int, kind string, size int) string {
 		} else {
 			js2, _ := protojson.Marshal(msg2)
 			res = doHTTPSched(s.mux, "POST", "/t/bidi", http.Header{"Content-Type": {"application/json"}, "X-Duplex": {tag}}, body(append(append([]byte{}, js...), compactJSON(js2)...)))
+		}
+	case "http-accept-1line", "http-accept-2lines":
+		// the same first Accept line; one request goes on with a second line that changes the
+		// outcome. What a request is answered with is a matter of its own header lines.
+		h := http.Header{"Content-Type": {"application/json"}, "Accept": {"application/json;q=0.5"}}
+		want := "application/json"
+		if kind == "http-accept-2lines" {
+			h["Accept"] = append(h["Accept"], "application/protobuf")
+			want = "application/protobuf"
+		}
+		res = doHTTPSched(s.mux, "POST", "/t/unary", h, body(js))
+		if ct := res.Header.Get("Content-Type"); res.HTTPCode == 200 && ct != want {
+			return fmt.Sprintf("WRONG-CONTENT-TYPE %s answered as %q, its own Accept lines %q ask for %q", tag, ct, h["Accept"], want)
 		}
 	case "mount-json":
 		// through NewServer's mount: whatever the server layer adds per request is shared state too
@@ -481,6 +494,13 @@ func c13Scenario(kinds []string, sizes []int) *e3Scenario {
 		s := sys.(*c13Sys)
 		var fails []e3Fail
 		for i := range kinds {
+			if strings.HasPrefix(s.obs[i], "WRONG-CONTENT-TYPE") {
+				fails = append(fails, e3Fail{"response-depends-on-another-request", s.obs[i]})
+				continue
+			}
+			if strings.HasPrefix(want[i], "WRONG-CONTENT-TYPE") {
+				continue // the solo run itself was answered from what an earlier request left behind: reported where it happens
+			}
 			if s.obs[i] != want[i] {
 				fails = append(fails, e3Fail{"response-differs-from-solo-run", fmt.Sprintf("request %d (%s): alone it yields\n  %s\nconcurrently with %v it yields\n  %s", i, kinds[i], truncS(want[i], 400), kinds, truncS(s.obs[i], 400))})
 			}
@@ -535,6 +555,8 @@ func c13Scenarios(thorough bool) []*e3Scenario {
 	if !thorough {
 		scs = append(scs, c13Scenario([]string{"grpc-duplex", "grpc"}, []int{20, 34}))
 	}
+	// two requests that share their first Accept line, both orders
+	scs = append(scs, c13Scenario([]string{"http-accept-2lines", "http-accept-1line"}, []int{20, 34}), c13Scenario([]string{"http-accept-1line", "http-accept-2lines"}, []int{20, 34}))
 	// through the server's mounts, after a request the mount turned away
 	scs = append(scs, c13Scenario([]string{"mount-escaped-json", "mount-json"}, []int{20, 34}))
 	// scale: messages that compress well and decompress to more than the pooled frame buffer holds
